@@ -455,7 +455,7 @@ func structDecodeFuncOf(typ reflect.Type, version int16, flexible bool) decodeFu
 			// for details of tag buffers in "flexible" messages.
 			n := int(d.readUnsignedVarInt())
 
-			for i := 0; i < n; i++ {
+			for i := 0; i < n && d.err == nil; i++ {
 				tagID := int(d.readUnsignedVarInt())
 				size := int(d.readUnsignedVarInt())
 
